@@ -152,6 +152,19 @@ class SBool:
 
     __radd__ = __add__
 
+    # bool ordering (False < True), needed when tuples of proxies are sorted
+    def __lt__(self, o):
+        return SInt(z3.If(self.e, 1, 0)) < o
+
+    def __le__(self, o):
+        return SInt(z3.If(self.e, 1, 0)) <= o
+
+    def __gt__(self, o):
+        return SInt(z3.If(self.e, 1, 0)) > o
+
+    def __ge__(self, o):
+        return SInt(z3.If(self.e, 1, 0)) >= o
+
     def __repr__(self):
         return f'SBool({self.e})'
 
@@ -302,6 +315,64 @@ def concretize(x, lo=None, hi=None):
             return v
     _CTX.pc.append(e == hi)
     return hi
+
+
+class SEnum:
+    """A value from a finite universe of Python objects (strings, None, Enum members), symbolic in which one:
+    `term` is a z3 Int index into `universe`.  `==`/`!=` give SBool; `.value()` case-splits to the concrete member
+    (used where the value has to be handed to code that hashes it or passes it to C)."""
+    __slots__ = ('e', 'universe')
+
+    def __init__(self, e, universe):
+        self.e = e
+        self.universe = list(universe)
+
+    def domain(self):
+        return z3.And(self.e >= 0, self.e < len(self.universe))
+
+    def _idx(self, o):
+        for i, u in enumerate(self.universe):
+            if u is o or (type(u) is type(o) and u == o):
+                return i
+        return None
+
+    def __eq__(self, o):
+        if isinstance(o, SEnum):
+            conds = [z3.And(self.e == i, o.e == j) for i, u in enumerate(self.universe)
+                     for j, w in enumerate(o.universe) if u is w or (type(u) is type(w) and u == w)]
+            return SBool(z3.Or(*conds) if conds else z3.BoolVal(False))
+        i = self._idx(o)
+        if i is None:
+            return False
+        return SBool(self.e == i)
+
+    def __ne__(self, o):
+        r = self.__eq__(o)
+        return (not r) if isinstance(r, bool) else SBool(z3.Not(r.e))
+
+    def __hash__(self):
+        raise HarnessError('symbolic enum hashed: call .value() before handing it to a set/dict')
+
+    def __bool__(self):
+        return bool(self.value())
+
+    def value(self):
+        if _CTX is None:
+            raise HarnessError('symbolic enum concretised outside a natsym run')
+        n = len(self.universe)
+        for i in range(n - 1):
+            if _CTX.decide(self.e == i):
+                return self.universe[i]
+        _CTX.pc.append(self.e == n - 1)
+        return self.universe[n - 1]
+
+    def is_(self, o):
+        """z3 formula `self is member o` (for oracles)."""
+        i = self._idx(o)
+        return z3.BoolVal(False) if i is None else self.e == i
+
+    def __repr__(self):
+        return f'SEnum({self.e} in {self.universe})'
 
 
 TOKEN_RE = r'⟦\d+⟧'
